@@ -8,6 +8,7 @@ reply:
   <req> <req> … | err <kind> <details>
 -/
 import CompmechVerif.Model.EigPost
+import CompmechVerif.Model.ConeLb
 import CompmechVerif.Drv.Proto
 
 namespace Compmech.Drv.EigIO
@@ -85,6 +86,20 @@ def handle (op : String) (rest : String) : String :=
             " | " ++ showQs o.vecs.cols.flatten
         | .error e => showReqs r.1 ++ " | " ++ showErr e
       | _, _, _, _ => "err parse"
+    | _ => "err parse-fields"
+  | "conelb" =>
+    -- conelb <nred> <pos> <num> | <M: r c v …> | <first> | <second> | <third>
+    match fields rest with
+    | [hd, ks, fs, ss, ts] =>
+      match (words hd).mapM String.toNat?, triples (words ks), parseRes fs, parseRes ss, parseRes ts with
+      | some [nred, pos, num], some kc, some first, some second, some third =>
+        let r := coneLb nred pos num kc first second third
+        match r.2 with
+        | .ok o =>
+          showReqs r.1 ++ s!" | ok {o.vecs.rows} {o.vecs.ncols} | " ++ " ".intercalate (o.vals.map showLam) ++
+            " | " ++ showQs o.vecs.cols.flatten
+        | .error e => showReqs r.1 ++ " | " ++ showErr e
+      | _, _, _, _, _ => "err parse"
     | _ => "err parse-fields"
   | _ => "err unknown-op"
 
